@@ -48,6 +48,8 @@ type Compiled struct {
 	Src  string
 	Mask int
 	Ch   chan eval.Event
+	// NoDrain: the caller consumes the events itself (multi-task engines)
+	NoDrain bool
 }
 
 // CompileWorld compiles prog under the world's configuration with the given
@@ -113,7 +115,7 @@ func (c *Compiled) RunEnv(env *Env, kind string) (o Outcome) {
 			o.Panic = r
 			o.Stack = string(debug.Stack())
 		}
-		if c.Ch != nil {
+		if c.Ch != nil && !c.NoDrain {
 			o.Events = drain(c.Ch)
 		}
 	}()
